@@ -90,7 +90,6 @@ func runC18(o *cli.Opts, run *evid.Run) {
 	run.Require("from-scratch recomputations", getInt(run, "scratch_recomputations"), 32)
 }
 
-
 func getInt(run *evid.Run, k string) int { return run.GetInt(k) }
 
 func c18History(run *evid.Run, seed int64, key string, d, h, steps int) {
